@@ -229,6 +229,7 @@ def n4(ctx, rep, T, be, struct, fns, prefixed):
 def n3(ctx, rep):
     """Reference rewriter coverage."""
     f = ctx.fn('check_type', file='reconcile.rs')
+    fx = ctx.x(f)
     site = {'file': f['file'], 'line': f['line']}
     rt = ctx.item('enum', 'RustType')
     sp = ctx.item('enum', 'SpecialRustType')
@@ -244,9 +245,16 @@ def n3(ctx, rep):
             rep.fail('N3', key, f"reconcile::check_type has no arm for RustType::{var['name']}", site)
             continue
         if id_field:
-            a = arms[0]
-            bound = any(b['name'] == 'id' and b['uses'] > 0 for b in a['bindings'])
-            assigned = re.search(r'\*\s*id\s*=', a['body']) is not None
+            # an assignment (here or in an expanded local helper) whose target is the `id` payload of this variant
+            full = f"RustType::{var['name']}"
+            assigned = False
+            for asg in fx['assigns']:
+                t = vt.strip(asg.get('target'))
+                while isinstance(t, dict) and t.get('k') in ('deref', 'ref', 'paren'):
+                    t = vt.strip(t.get('v'))
+                if isinstance(t, dict) and t.get('k') == 'payload' and str(t.get('variant', '')).endswith(full) and t.get('field') == 'id':
+                    assigned = True
+            bound = assigned
             rep.check(bound and assigned, 'N3', key + ':id-rewritten', 'id position rewritten', f"reconcile::check_type never rewrites RustType::{var['name']}.id — a reference `{var['name']}` to a serde(rename)d generic type keeps the original name while its definition is renamed", site)
     # special payloads
     m_sp = [mm for mm in f['matches'] if any(v.startswith('SpecialRustType::') for a in mm['arms'] for v in a['variants'])]
